@@ -161,6 +161,25 @@ def check_step(ctx: Ctx, fi: FuncInfo) -> Dict[str, str]:
                     wn = s.targets[0].id
                     ctx.check(o, "DP-WIRES", fi, "wire names in wire order", norm(s.value)[:60], "the per-wire symbol list is not built in wire order", s)
     if wn is None:
+        # ... or as an append loop over the wires: `X = []` / `for wire in w: ...; X.append(sym)`
+        for k_, s in enumerate(loop.body):
+            if isinstance(s, ast.For) and isinstance(s.target, ast.Name):
+                core, par = q.reversal_parity(s.iter)
+                if not (isinstance(core, ast.Name) and core.id == w):
+                    continue
+                apps_ = [c for c in q.method_calls(s, "append") if isinstance(c.func.value, ast.Name)]
+                if len(apps_) != 1:
+                    continue
+                lst = apps_[0].func.value.id
+                inits_ = [a for a in loop.body[:k_] if isinstance(a, ast.Assign) and len(a.targets) == 1 and isinstance(a.targets[0], ast.Name) and a.targets[0].id == lst and isinstance(a.value, ast.List) and not a.value.elts]
+                if len(inits_) != 1:
+                    continue
+                wn = lst
+                uncond = not guard_facts(fi, apps_[0]) or all(q.contains(s, e_) is False for e_, _p in guard_facts(fi, apps_[0]))
+                inner_guards = [e_ for e_, _p in guard_facts(fi, apps_[0]) if q.contains(s, e_)]
+                ctx.check(par == 0 and not inner_guards, "DP-WIRES", fi, "wire names in wire order", f"for .. in {norm(s.iter)}: {lst}.append(..)", "the per-wire symbol list is not built from every wire, in wire order" + (f" (appended only under {[norm(e_) for e_ in inner_guards]})" if inner_guards else ""), s)
+                break
+    if wn is None:
         raise AnchorError(fi.short, "per-wire symbol list (wn = check_or_add(w)) not found")
     table = None
     chain_if = [s for s in loop.body if isinstance(s, ast.If)]
